@@ -139,6 +139,9 @@ type RigOpts struct {
 	Prepared bool
 	// Trace opens the file through the statement-recording driver (see sqltrace.go).
 	Trace bool
+	// Pool leaves database/sql's connection pool as the service configures it (the free-running
+	// pass: readers and the writer really use different connections).
+	Pool bool
 }
 
 // preparedStub is an existing, well-formed (gzip of a CSV header line) prepared-database file in
@@ -206,20 +209,23 @@ func OpenRig(path string, o RigOpts) *Rig {
 	} else if o.ReInit {
 		db, err = database.Init(cfg, Quiet())
 	} else {
-		dsn := fmt.Sprintf("file:%s?_foreign_keys=true&pooling=true", path)
-		drv := "sqlite3"
 		if o.Trace {
+			// (the statement-recording driver needs its own name: the adapter's DSN is copied here)
 			RegisterTraceDriver()
-			drv = TraceDriver
+			db, err = sqlx.Open(TraceDriver, fmt.Sprintf("file:%s?_foreign_keys=true&pooling=true", path))
+		} else {
+			// the service's own way of opening the file (DSN, connection settings)
+			db, err = database.VerifConnect(cfg.Db)
 		}
-		db, err = sqlx.Open(drv, dsn)
 	}
 	if err != nil {
 		panic(fmt.Sprintf("open rig: %v", err))
 	}
 	// One connection: keeps every statement of one execution on one SQLite handle,
 	// which makes row order and timing independent of database/sql's pool.
-	db.SetMaxOpenConns(1)
+	if !o.Pool {
+		db.SetMaxOpenConns(1)
+	}
 	hdb := sql.NewHeadersDb(db, Quiet())
 	repo := &repository.Repositories{
 		Headers:  sqlrepository.NewHeadersRepository(hdb),
